@@ -256,16 +256,16 @@ def generate(repo):
         # ---- number_of_fibers constants, format strings, environment variable names
         tboss, nsdss = nfiber_constants(P.find_function(tree, 'number_of_fibers'))
         spf = format_calls(P.find_function(tree, 'spec_path'))
-        m = [re.fullmatch(r'\{0:0(\d+)d\}', f) for f in spf]
+        m = [re.fullmatch(r'\{0:0?(\d*)d\}', f) for f in spf]
         if len(spf) != 1 or m[0] is None:
             raise P.Unrecognised('spec_path format strings %s' % spf)
-        dir_width = int(m[0].group(1))
+        dir_width = int(m[0].group(1) or 0)
         rsf = format_calls(P.find_function(tree, 'readspec'))
-        pm = [re.fullmatch(r'\{0:0(\d+)d\}([^{}]*)\{1:0(\d+)d\}', f) for f in rsf]
+        pm = [re.fullmatch(r'\{0:0?(\d*)d\}([^{}]*)\{1:0?(\d*)d\}', f) for f in rsf]
         pm = [x for x in pm if x is not None]
         if len(pm) != 1:
             raise P.Unrecognised('pmjdstr format')
-        wp, sep, wm = int(pm[0].group(1)), pm[0].group(2), int(pm[0].group(3))
+        wp, sep, wm = int(pm[0].group(1) or 0), pm[0].group(2), int(pm[0].group(3) or 0)
         parts = {stem: name_parts(rsf, stem) for stem in ('spPlate-', 'spZbest-', 'spZall-', 'photoPlate-')}
         env_int, env_other = env_names(P.find_function(tree, 'spec_path'))
         defs.append('Definition gen_nfiber_boss_mjd : Z := %d.' % tboss)
